@@ -296,7 +296,8 @@ Proof. intros A f p c l H. induction l; simpl; auto. now rewrite H. Qed.
 
 Fixpoint base_ep (e : ep) : ep := match e with E_estimator e' => base_ep e' | _ => e end.
 (* every modelled entry point that has a random_state argument *)
-Definition seedable (e : ep) : bool := match base_ep e with E_power_iteration => false | _ => true end.
+(* (CP_PLSR has the argument but does not use it: treated separately, gf_cp_plsr) *)
+Definition seedable (e : ep) : bool := match base_ep e with E_power_iteration | E_cp_plsr => false | _ => true end.
 
 Lemma gf_svd_interface : forall m mask nrep p, p = PInt \/ p = PLoc -> gf (sk_svd_interface m mask nrep) p AUnset = Some AUnset.
 Proof. intros m mask nrep p [->| ->]; destruct m, mask; reflexivity. Qed.
@@ -331,4 +332,22 @@ Proof.
       (rewrite gf_seqs_map; [reflexivity|]; intro d; simpl; destruct (Nat.ltb d rk), sv, mk; reflexivity).
   - (* estimator *)
     simpl. specialize (IHe S). destruct (gf (skeleton e o) p AUnset); [reflexivity|discriminate].
+Qed.
+
+(* CP_PLSR.fit: initialize_cp is called WITHOUT random_state; with rank 1 the only draw site (padding of a mode
+   shorter than the rank) is unreachable unless the contracted tensor has an empty mode.  Then nothing is drawn from
+   any generator, whatever random_state is. *)
+Lemma gf_seqs_map_in : forall (A : Type) (f : A -> skel) p c l,
+  (forall d, In d l -> gf (f d) p c = Some c) -> gf (seqs (map f l)) p c = Some c.
+Proof.
+  intros A f p c l H. induction l; simpl; auto.
+  rewrite (H a (or_introl eq_refl)). apply IHl. intros d Hd. apply H. now right.
+Qed.
+
+Lemma gf_cp_plsr : forall o p, forallb (Nat.leb 1) (tl (o_shape o)) = true -> global_free (sk_cp_plsr o) p = true.
+Proof.
+  intros o p H. unfold global_free, sk_cp_plsr. simpl.
+  rewrite gf_seqs_map_in; [reflexivity|].
+  intros d Hd. rewrite forallb_forall in H. specialize (H d Hd). apply Nat.leb_le in H.
+  simpl. destruct (Nat.ltb d 1) eqn:E; [apply Nat.ltb_lt in E; lia | reflexivity].
 Qed.
